@@ -48,6 +48,10 @@ func resolveStruct(rv reflect.Value, fieldName string) (any, bool) {
 	// Try field name first
 	if f, ok := rt.FieldByName(fieldName); ok {
 		fv := rv.FieldByIndex(f.Index)
+		if !fv.CanInterface() {
+			// unexported field: not accessible, report absence instead of panicking
+			return nil, false
+		}
 		return fv.Interface(), true
 	}
 
@@ -63,6 +67,9 @@ func resolveStruct(rv reflect.Value, fieldName string) (any, bool) {
 		tagName := strings.Split(tag, ",")[0]
 		if tagName == fieldName {
 			fv := rv.FieldByIndex(f.Index)
+			if !fv.CanInterface() {
+				return nil, false
+			}
 			return fv.Interface(), true
 		}
 	}
